@@ -54,7 +54,14 @@ def run(ck, m):
     for bi, t in wb.calls():
         if callee_decl(t) == 'std::io::Write::flush':
             base = codec.ultimate_local(wb, (t['args'][0].get('m') or t['args'][0].get('c'))['l'])
-            flushes.append((bi, base, producer_of(base)))
+            prod = producer_of(base)
+            # field-sensitive: the writers may travel together in a struct (`out.values_file.flush()`)
+            named = sorted({callee(wb.term(r[1])).split('::')[-1] for r in origins(wb, t['args'][0], stop_at_calls=True) if r[0] == 'call'}
+                           | {callee(wb.term(r[1])).split('::')[-1] for r in origins(wb, t['args'][0]) if r[0] == 'call'})
+            named = [x for x in named if 'file' in x or 'mode' in x]
+            if len(named) == 1:
+                prod = named[0]
+            flushes.append((bi, base, prod))
     vflush = [bi for bi, base, p in flushes if p and 'values' in p]
     kflush = [bi for bi, base, p in flushes if p and 'key' in p]
     ck.floor('C11.a', len(flushes), 3, 'flush calls in the snapshot writer')
